@@ -196,9 +196,11 @@ def _is_valid_list(t: Term, G: Term) -> bool:
         t = t[2][0]
     if t[0] == "comp" and t[1] in ("list", "gen") and len(t[3]) == 1:
         elem, it, conds = t[3][0]
-        if t[2] != elem or len(conds) != 1:
+        if len(conds) != 1:
             return False
         c = conds[0]
+        if t[2] != elem:       # ([i for i, ok in enumerate(mask) if ok] is recorded as [i for i in range(len(mask)) if mask[i]])
+            return False
         okc = c == ("index", ("call", ("attr", G, "action_masks"), (), ()), elem)
         okr = is_call_to(it, "range") and len(it[2]) == 1 and (
             it[2][0] == ("index", ("attr", ("call", ("attr", G, "action_masks"), (), ()), "shape"), ("const", 0)) or
@@ -466,14 +468,27 @@ def rule_c13_expected_greedy(prog: Program, col: Collector) -> None:
                 and vn.value.value.id == cands_name and isinstance(vn.value.slice, ast.Name):
             idx_name = vn.value.slice.id
     idx_assign = [e for e in ft.of_kind("assign") if idx_name is not None and e.name == idx_name]
-    if not idx_assign:
+    # term-level discovery (independent of how many names the selection goes through): seq.append(CANDS[IDX][-1])
+    selections: list = []
+    cands_t = stacked[0].args[2] if len(stacked[0].args) > 2 else None
+    for ap in ft.calls("append"):
+        a0 = ap.args[0] if ap.args else None
+        if a0 is not None and a0[0] == "index" and a0[2] in (("const", -1), ("un", "-", ("const", 1))) and a0[1][0] == "index" and a0[1][1] == cands_t:
+            def alternatives(t):
+                if t[0] in ("ifexp", "phi"):
+                    return alternatives(t[2]) + alternatives(t[3])
+                return [t]
+            selections = [(ap, alt) for alt in alternatives(a0[1][2])]
+    if selections:
+        idx_assign = []
+    elif not idx_assign:
         # any assignment whose value is argmin/argmax of something over E
         idx_assign = [e for e in ft.of_kind("assign") if any(is_call_to(s, "numpy.argmin", "numpy.argmax") for s in subterms(e.value))]
-    if not idx_assign:
+    if not idx_assign and not selections:
         raise AnalysisError(f"{ref.short}: selection of the best action index not found")
+    selections = selections or [(e, e.value) for e in idx_assign]
     det = 0
-    for e in idx_assign:
-        v = e.value
+    for e, v in selections:
         while is_call_to(v, "int") and len(v[2]) == 1:
             v = v[2][0]
         if is_call_to(v, "numpy.argmin", "numpy.argmax") or (v[0] == "call" and v[1][0] == "attr" and v[1][2] in ("argmin", "argmax")):
